@@ -1225,8 +1225,10 @@ func (s Subtitles) WriteToSSA(o io.Writer) (err error) {
 		var styleNames []string
 		// Loop through styles in a stable order since the format depends on it
 		var styleIDs []string
-		for id := range s.Styles {
-			styleIDs = append(styleIDs, id)
+		for id, style := range s.Styles {
+			if style != nil {
+				styleIDs = append(styleIDs, id)
+			}
 		}
 		sort.Strings(styleIDs)
 		for _, id := range styleIDs {
